@@ -465,7 +465,29 @@ def r3b_by_mask_value(r, facts):
     r.floor(14)
 
 
+def r7_read_consumed(r, facts):
+    """a finished read is never polled again: once the read future returned Ready (data, empty or error) the state
+    leaves `Reading` before the function returns or loops — only Pending keeps it"""
+    f = facts.fn(POLL_SYS)
+    hdr = loop_header(f)
+    polls = [(loc, t) for loc, t in f.calls() if (t.get('callee') or '') == 'std::future::Future::poll' and not f.blocks[loc[0]]['cleanup']]
+    if not r.require(len(polls) >= 1 and hdr is not None, 'poll_sys/read-poll', 'poll of the read future / state dispatch not found', f.where()):
+        return
+    stores = [loc for loc, s_ in f.assigns() if [p_.get('name') for p_ in s_['lhs']['p'] if p_['k'] == 'field'][-1:] == ['state'] and (s_['lhs'].get('ty') or '').startswith('inotify::EventsState')]
+    pend = [Loc(v['edge'][1], 0) for v in variant_edges(f, 'std::task::Poll', 'Pending')]
+    r.require(bool(stores) and bool(pend), 'poll_sys/state-stores', 'state stores / Pending arm not found', f.where())
+    hloc = f.term_loc(hdr)
+    for loc, t in polls:
+        if t.get('target') is None:
+            continue
+        hit = f.forward_paths_hit([Loc(t['target'], 0)], f.returns() + [hloc], blockers=stores + pend)
+        r.inst('read future polled', f.where(loc))
+        r.require(hit is None, 'poll_sys/finished-read-kept', 'after the read future completed (e.g. with an error) a path returns or loops with the state still `Reading`: the next poll_next polls a finished future (panic) instead of ending the stream', f.where(hit[0]) if hit else '')
+    r.floor(1)
+
+
 def check(ctx):
+    ctx.run('C17.R7', 'a completed read (data, end of stream, error) always leaves the Reading state; only Pending keeps it', r7_read_consumed)
     ctx.run('C17.R3b', 'per event bit of <linux/inotify.h>, by value: yielded unless IN_IGNORED/IN_Q_OVERFLOW; watch forgotten only for IN_IGNORED', r3b_by_mask_value)
     ctx.run('C17.R2', 'decoder bounds: header deref under buf.len() > processed; BUF_SIZE covers one maximal record', r2_bounds)
     ctx.run('C17.R3', 'IN_IGNORED forgets the watch; IN_IGNORED / IN_Q_OVERFLOW records are never yielded', r3_filtered)
